@@ -190,11 +190,13 @@ def r19_2(ctx: Ctx, entry, pr, prev, class_table):
         for c in own_nodes(fn):
             if isinstance(c, ast.Call):
                 s = sink_of(fn, c)
-                if s and s[0] == "fread" and c.args:
-                    atoms = full(fdd.deps_of(c.args[0]))
+                if s and s[0] == "fread" and (c.args or s[1].startswith("Path.")):
+                    atoms = full(fdd.deps_of(c.func.value if s[1].startswith("Path.") else c.args[0]))
                     if atoms & {"param:tjp_file", "param:tjp_path", "call:validate_tjp_file"} \
                             and "call:mkdtemp" not in atoms:      # not a file of the private output dir
                         sites.append((fn, c))
+    if not any(fn is not entry for fn, _c in sites):
+        raise AnchorMissing("create_auto_report_file: read of the input file not found")
     for fn, c in sites:
         # which handler of the command receives OSError / UnicodeDecodeError raised here?
         caught = _first_handler(ctx, entry, tr, fn, c, class_table)
@@ -312,6 +314,37 @@ def r19_3(ctx: Ctx, entry):
                    key=key_of("R19.3", entry, c))
 
 
+def r19_3_spool(ctx: Ctx, entry):
+    """stdin channel: the spool file the hash and the parser read is a verbatim copy of what was read from stdin."""
+    from ..order import local_resolver
+    res = local_resolver(entry.node)
+    n = 0
+    for w in own_nodes(entry):
+        if not isinstance(w, ast.With):
+            continue
+        for it in w.items:
+            c = it.context_expr
+            if isinstance(c, ast.Call) and dotted(c.func) == "os.fdopen" and isinstance(it.optional_vars, ast.Name):
+                f = it.optional_vars.id
+                writes = [x for st in w.body for x in ast.walk(st) if isinstance(x, ast.Call) and isinstance(x.func, ast.Attribute)
+                          and x.func.attr in ("write", "writelines") and norm(x.func.value) == f]
+                n += 1
+
+                def is_stdin(e):
+                    if isinstance(e, ast.Name):
+                        vals = res(e)
+                        return len(vals) == 1 and is_stdin(vals[0])
+                    return isinstance(e, ast.Call) and dotted(e.func) in ("sys.stdin.read", "sys.stdin.buffer.read")
+                ok = len(writes) == 1 and len(writes[0].args) == 1 and is_stdin(writes[0].args[0])
+                ctx.ob("R19.3", f"{entry.qual}: stdin spool written by {[norm(x)[:40] for x in writes]}", (entry, w), ok,
+                       "the spool file holds exactly what was read from stdin (one write of the content)" if ok else
+                       "the temporary copy of stdin is not a verbatim copy (more than one write, or a value other than the content "
+                       "read from stdin): report_id is no longer the SHA-256 of the input bytes and file / stdin runs differ",
+                       key="R19.3|report|stdin spool verbatim")
+    if not n:
+        raise AnchorMissing("plan.report: stdin spool (os.fdopen) not found")
+
+
 def r19_5(ctx: Ctx):
     tj = ctx.repo.func("ReportTable.to_json")
     keys = set()
@@ -330,8 +363,9 @@ def run(ctx: Ctx):
     r19_1(ctx, entry, pr, prev)
     r19_2(ctx, entry, pr, prev, class_table)
     r19_3(ctx, entry)
+    r19_3_spool(ctx, entry)
     r19_5(ctx)
     ctx.stats["branches_decided_by_constants"] = len(set(pr.pruned_branches))
     ctx.floor("R19.1", 5)
     ctx.floor("R19.2", 10)
-    ctx.floor("R19.3", 3)
+    ctx.floor("R19.3", 4)
